@@ -9,6 +9,7 @@ import (
 	"os"
 	"time"
 
+	"verif/internal/driver"
 	"verif/internal/props"
 )
 
@@ -131,7 +132,7 @@ func main() {
 					fmt.Println("   ", t)
 				}
 			}
-			if len(o.Violations) >= *maxViol || res.Fatal {
+			if len(o.Violations) >= *maxViol || res.Fatal || driver.ProcessTainted.Load() {
 				break
 			}
 		} else if *only >= 0 {
